@@ -4,7 +4,7 @@
 From Coq Require Import ZArith Bool String.
 From Coq Require Import List.
 Import ListNotations.
-Require Import MV.C04.Gen MV.C04.Model MV.C04.Proofs.
+Require Import MV.C04.Gen MV.C04.Model MV.C04.Geo MV.C04.Proofs.
 Open Scope Z_scope.
 
 Theorem C04_roundtrip_xyz : forall (F Ftxt Cx Ctxt : Type) (pf : F -> Ftxt) (rf : Ftxt -> F) (f_of_int : Z -> F),
@@ -36,3 +36,28 @@ Theorem C04_roundtrip_medit : forall (F Ftxt Cx Ctxt : Type) (pf : F -> Ftxt) (r
   @print_medit F Ftxt Cx Ctxt pf m = Some L -> @parse_medit F Ftxt Cx Ctxt rf f_of_int L = vocab_medit m.
 Proof. exact medit_roundtrip. Qed.
 Print Assumptions C04_roundtrip_medit.
+
+(* geogram_ascii.  pc / rc: '{}'.format and complex() on complex values; f_is_zero x is x == 0.0, c_is_zero z is z == 0j.
+   geo_ok m: attribute names are free of double quotes, are not the names the format reserves and are distinct on each
+   container; arities are >= 1; values have the attribute's type; string values are not chunk headers; cells are
+   tetrahedra (the only cells mouette can write to this format, see C04_geogram_hexahedra_refuted). *)
+Theorem C04_roundtrip_geogram : forall (F Ftxt Cx Ctxt : Type) (pf : F -> Ftxt) (rf : Ftxt -> F) (f_of_int : Z -> F)
+    (pc : Cx -> Ctxt) (rc : Ctxt -> Cx) (cx_of_f : F -> Cx) (f_is_zero : F -> bool) (c_is_zero : Cx -> bool),
+  (forall x, rf (pf x) = x) -> (forall c, rc (pc c) = c) -> forall (m : mesh F Cx), @geo_ok F Ftxt Cx Ctxt m ->
+  @parse_geo F Ftxt Cx Ctxt rf f_of_int rc cx_of_f f_is_zero c_is_zero (@print_geo F Ftxt Cx Ctxt pf pc m)
+  = Some (@vocab_geo F Cx f_is_zero c_is_zero m).
+Proof. exact geo_roundtrip. Qed.
+Print Assumptions C04_roundtrip_geogram.
+
+(* every attribute comes back with its name, type and arity (they are fields of sparse_of a, see vocab_geo) and, read
+   densely over the n items of its container, with its values; a scalar attribute does not distinguish a value that
+   compares equal to the type's default from the default itself (-0.0 reads back as 0.0). *)
+Theorem C04_attributes_geogram : forall (F Cx : Type) (f_of_int : Z -> F) (cx_of_f : F -> Cx)
+    (f_is_zero : F -> bool) (c_is_zero : Cx -> bool) (a : attr F Cx) (n : nat),
+  1 <= a_ar a -> length (a_vals a) = (n * Z.to_nat (a_ar a))%nat ->
+  (a_ar a = 1 -> Forall (fun v => @not_default F Cx f_is_zero c_is_zero v = false -> v = @ty_default F Cx f_of_int cx_of_f (a_ty a)) (a_vals a)) ->
+  @dense_of F Cx f_of_int cx_of_f (Z.of_nat n) (@sparse_of F Cx f_is_zero c_is_zero a) = a_vals a
+  /\ s_name (@sparse_of F Cx f_is_zero c_is_zero a) = a_name a
+  /\ s_ty (@sparse_of F Cx f_is_zero c_is_zero a) = a_ty a /\ s_ar (@sparse_of F Cx f_is_zero c_is_zero a) = a_ar a.
+Proof. intros. split; [now apply geo_attr_dense | repeat split]. Qed.
+Print Assumptions C04_attributes_geogram.
